@@ -568,3 +568,46 @@ def gen_conc_pair(seed, family, shape, mp=False):
             "formats": formats, "contents": contents, "mcontents": mcontents, "setup": [dict(o) for o in st],
             "tasks": [[dict(a)], [dict(b)]], "stagger": [0, rng.choice([0, 0, 3, 15, 40])],
             "shape": [si, i, j]}
+
+
+# ------------------------------------------------------------------------------------------
+# SEQ: bounded-exhaustive short histories
+# ------------------------------------------------------------------------------------------
+
+def seq_enum_menu(family):
+    if family == "obj":
+        # pids: 0 = "a", 1 = "ab" (prefix-related); contents: 0, 1; cids: existing content / never stored
+        return [
+            _st(0, 0), _st(1, 0), _st(0, 1), _st(None, 0),
+            _st(1, 0, ckalgo="md5", ck="wrong"),
+            {"op": "tag", "pid": 0, "cid": ["c", 0]}, {"op": "tag", "pid": 1, "cid": ["c", 0]},
+            {"op": "tag", "pid": 0, "cid": ["x", 0]}, {"op": "tag", "pid": 1, "cid": ["x", 0]},
+            {"op": "delete", "pid": 0}, {"op": "delete", "pid": 1},
+            {"op": "div", "c": 0, "ckalgo": "sha256", "ck": "wrong", "size": "ok"},
+            {"op": "div", "c": 0, "ckalgo": "sha224", "ck": "upper", "size": "ok"},
+        ]
+    return [
+        {"op": "smeta", "pid": 0, "fmt": None, "m": 0}, {"op": "smeta", "pid": 0, "fmt": 0, "m": 1},
+        {"op": "smeta", "pid": 0, "fmt": 1, "m": 2}, {"op": "smeta", "pid": 1, "fmt": 2, "m": 0},
+        {"op": "smeta", "pid": 1, "fmt": None, "m": 2},
+        {"op": "dmeta", "pid": 0, "fmt": None}, {"op": "dmeta", "pid": 0, "fmt": 1}, {"op": "dmeta", "pid": 1, "fmt": 2},
+        {"op": "delete", "pid": 0}, _st(0, 0), {"op": "restart"},
+    ]
+
+
+def seq_enum_header(family):
+    cfg = gen_cfg(None, simple=True)
+    # pids "ab" / "a" with formats "c" / "bc": pid+format concatenations coincide
+    return {"seed": 0, "engine": "seq", "prof": "enum", "cfg": cfg,
+            "knobs": {"blksize": None, "write_through": False, "shuffle_listdir": True, "mp": False},
+            "pids": ["a", "ab"] if family == "obj" else ["ab", "a"],
+            "formats": [cfg["store_metadata_namespace"], "c", "bc"],
+            "contents": [[4, 3], [9, 7]], "mcontents": [[5, 1], [0, 0], [12, 2]]}
+
+
+def seq_enum_programs(family, max_len):
+    import itertools
+    menu = seq_enum_menu(family)
+    for n in range(1, max_len + 1):
+        for combo in itertools.product(range(len(menu)), repeat=n):
+            yield combo, [dict(menu[i]) for i in combo]
